@@ -32,6 +32,12 @@ type Cfg struct {
 	Back     bool   `json:"back,omitempty"`
 	BackMs   uint64 `json:"back_ms,omitempty"`
 	BackFail bool   `json:"back_fail,omitempty"`
+	// BackRace: the other shape of the clock fault. A request admitted while the breaker was closed is still under
+	// way when the breaker opens; at the very moment a probe takes the breaker to half-open (inside the listeners'
+	// callback, which stands for any other goroutine running between the probing caller's steps) the clock is set
+	// back by BackMs and that straggler fails: the breaker re-opens. A request 1 ms later is rejected, and one a
+	// retry timeout later is admitted as the probe.
+	BackRace bool `json:"back_race,omitempty"`
 }
 
 type P struct{}
@@ -94,6 +100,10 @@ func (P) Gen(rng *sim.Rng, tier string) *harness.Case {
 		}
 		cfg := Cfg{NRes: 1, Origin: 1700000000000 + rng.U64Range(0, 100000), Rules: []BRule{{ID: "b0", Res: 0, BreakerRule: r}}, Back: true,
 			BackMs: []uint64{1, 10, L - 1, L, L + 1, r.StatMs, r.StatMs + r.RetryMs, 60000}[rng.Intn(8)], BackFail: rng.Chance(0.5)}
+		if r.Strategy != model.SlowRatio && rng.Chance(0.4) {
+			cfg.BackRace = true
+			cfg.BackMs = []uint64{r.RetryMs / 2, r.RetryMs + 1, r.RetryMs + 2, 2 * r.RetryMs, 60000}[rng.Intn(5)]
+		}
 		return &harness.Case{Cfg: harness.MustJSON(cfg), Callers: [][]harness.Op{{{K: "back"}}}}
 	}
 	cfg := Cfg{NRes: rng.Range(1, 2), Origin: 1700000000000 + rng.U64Range(0, 100000)}
@@ -184,7 +194,11 @@ type lev struct {
 	from, to int
 }
 
-type listener struct{ log []lev }
+type listener struct {
+	log []lev
+	// hook (clock-fault scenarios) runs inside the callback, after the event was logged
+	hook func(lev)
+}
 
 func st(s cb.State) int {
 	switch s {
@@ -197,12 +211,21 @@ func st(s cb.State) int {
 }
 func (l *listener) OnTransformToClosed(prev cb.State, rule cb.Rule) {
 	l.log = append(l.log, lev{rule.Id, st(prev), model.Closed})
+	if l.hook != nil {
+		l.hook(l.log[len(l.log)-1])
+	}
 }
 func (l *listener) OnTransformToOpen(prev cb.State, rule cb.Rule, _ interface{}) {
 	l.log = append(l.log, lev{rule.Id, st(prev), model.Open})
+	if l.hook != nil {
+		l.hook(l.log[len(l.log)-1])
+	}
 }
 func (l *listener) OnTransformToHalfOpen(prev cb.State, rule cb.Rule) {
 	l.log = append(l.log, lev{rule.Id, st(prev), model.HalfOpen})
+	if l.hook != nil {
+		l.hook(l.log[len(l.log)-1])
+	}
 }
 
 type mb struct {
@@ -476,6 +499,15 @@ func execBack(cfg *Cfg, o *harness.Outcome, clk *sim.Clock, lis *listener) {
 		}
 		return lis.log[len(lis.log)-1]
 	}
+	var straggler *base.SentinelEntry
+	if cfg.BackRace {
+		if r.Strategy == model.SlowRatio || cfg.BackMs > 1e6 {
+			return
+		}
+		if !harness.Call(o, "C03.panic", 0, func() { straggler, _ = sentinel.Entry(res, harness.EntryOpts(1, false, nil, nil, nil)...) }) || straggler == nil {
+			return
+		}
+	}
 	// failing requests (errors; for the slow strategy requests slower than the limit) until the breaker opens
 	for i := 0; i < int(r.MinReq)+3 && last().to != model.Open; i++ {
 		if !request(true, r.MaxRt+10) || o.Failed() {
@@ -487,6 +519,43 @@ func execBack(cfg *Cfg, o *harness.Outcome, clk *sim.Clock, lis *listener) {
 	}
 	clk.AdvanceMs(r.RetryMs + 1)
 	o.SimMs += r.RetryMs + 1
+	if cfg.BackRace {
+		opened := clk.NowMs() - r.RetryMs - 1
+		lis.hook = func(e lev) {
+			if e != (lev{r.ID, model.Open, model.HalfOpen}) {
+				return
+			}
+			lis.hook = nil
+			clk.SetNs((clk.NowMs() - cfg.BackMs) * 1e6)
+			sentinel.TraceError(straggler, fmt.Errorf("failed"))
+			straggler.Exit()
+		}
+		defer func() { lis.hook = nil }()
+		var probe *base.SentinelEntry
+		if !harness.Call(o, "C03.panic", 0, func() { probe, _ = sentinel.Entry(res, harness.EntryOpts(1, false, nil, nil, nil)...) }) {
+			return
+		}
+		if probe == nil || len(lis.log) != 3 || last() != (lev{r.ID, model.HalfOpen, model.Open}) {
+			return // (a completion that is not taken for the probe's is the business of the first shape)
+		}
+		o.Probe("breaker_reopened_behind_a_clock_step_back_while_a_caller_was_taking_it_to_half_open")
+		o.Nontrivial = true
+		reopened := clk.NowMs()
+		clk.AdvanceMs(1)
+		if request(false, 1) && !o.Failed() {
+			o.Fail("C03.admitted-right-after-reopening-behind-a-clock-step-back", 0, "breaker %+v opened at clock %d; while a request was taking it to half-open %d ms later, the clock was set back by %d ms and a straggler from the closed period failed: the breaker re-opened at clock %d (listeners heard %v). A request 1 ms after that re-opening was admitted - its retry timeout is %d ms", r.BreakerRule, opened, r.RetryMs+1, cfg.BackMs, reopened, lis.log, r.RetryMs)
+			return
+		}
+		if o.Failed() {
+			return
+		}
+		clk.SetNs((reopened + r.RetryMs + 1) * 1e6)
+		if !request(false, 1) && !o.Failed() {
+			o.Fail("C03.open-beyond-its-retry-timeout-after-clock-step-back", 0, "breaker %+v: re-opened at clock %d behind a clock step back of %d ms; %d ms later - its retry timeout - the request is still rejected (listeners heard %v)", r.BreakerRule, reopened, cfg.BackMs, r.RetryMs+1, lis.log)
+		}
+		harness.Call(o, "C03.panic", 0, func() { probe.Exit() })
+		return
+	}
 	var probe *base.SentinelEntry
 	if !harness.Call(o, "C03.panic", 0, func() { probe, _ = sentinel.Entry(res, harness.EntryOpts(1, false, nil, nil, nil)...) }) {
 		return
